@@ -106,7 +106,23 @@ func (p *planner) plan() (shared.SQLRequestPlanner, error) {
 		ClickhouseRequestPlanner: p.samplesPlanner,
 		isMatrix:                 p.script.StrSelector == nil,
 	}*/
-	return p.samplesPlanner, nil
+	return &withCacheResetPlanner{Main: p.samplesPlanner, caches: []**sql.With{&p.fpCache, &p.labelsCache}}, nil
+}
+
+// withCacheResetPlanner is the root of a prepared plan. The fingerprint and labels WITH clauses are shared
+// between the planners of one execution through p.fpCache / p.labelsCache; they carry sub-select aliases
+// numbered by that execution's context, so a later execution (live tailing processes the same plan every
+// second with a new context) must build them again instead of reusing the previous ones.
+type withCacheResetPlanner struct {
+	Main   shared.SQLRequestPlanner
+	caches []**sql.With
+}
+
+func (w *withCacheResetPlanner) Process(ctx *shared.PlannerContext) (sql.ISelect, error) {
+	for _, c := range w.caches {
+		*c = nil
+	}
+	return w.Main.Process(ctx)
 }
 
 func (p *planner) planMetrics15Shortcut(script any) error {
